@@ -140,6 +140,7 @@ class Body:
         blocked = set(blocked)
         goals = set(goals)
         starts = [start] if isinstance(start, int) else list(start)
+        starts = [s for s in starts if s not in blocked]
         prev = {s: None for s in starts}
         queue = list(starts)
         while queue:
@@ -186,6 +187,31 @@ class Body:
 
     def dominates(self, a, b):
         return bool(self.dominators()[b] >> a & 1)
+
+    def natural_loop(self, h):
+        """blocks of the natural loop(s) with header h (empty set if h is not a loop header)"""
+        tails = [p for p in self.pred(h) if self.dominates(h, p)]
+        if not tails:
+            return set()
+        body = {h}
+        stack = list(tails)
+        while stack:
+            x = stack.pop()
+            if x in body:
+                continue
+            body.add(x)
+            stack.extend(p for p in self.pred(x) if p not in body)
+        return body
+
+    def innermost_loop_containing(self, blocks):
+        """header of the smallest natural loop that contains all the given blocks, or None"""
+        best, best_size = None, None
+        for h in range(len(self.blocks)):
+            lb = self.natural_loop(h)
+            if lb and all(b in lb for b in blocks):
+                if best is None or len(lb) < best_size:
+                    best, best_size = h, len(lb)
+        return best
 
     def rpo(self):
         seen = set()
